@@ -57,6 +57,9 @@ class Options:
     install_skill: bool
     agent_base: str | None
     docs: bool
+    # Base include patterns. Only settable from a config file (`include`); None means
+    # the built-in defaults.
+    include: list[str] | None = None
 
 
 def _parse_args(args: list[str] | None = None) -> tuple[Options, set[str], bool]:
@@ -365,6 +368,8 @@ def _resolve_files(options: Options) -> list[str]:
         force_exclude=options.force_exclude,
         files_max_size=options.files_max_size,
     )
+    if options.include is not None:
+        config.include = list(options.include)
     resolver = FileResolver(config)
     resolved = resolver.resolve(resolvable)
     result = [str(p) for p in resolved]
